@@ -1,21 +1,23 @@
 # C20 -- HTTP replies line up, entry by entry, with the commands that caused them
 import itertools, random, re
 from nodegen import *
+import netfam
 
 ID = "C20"
 DRIVER = "node"
-MODEL_FILES = ["Model/Base.v", "Model/Parse.v", "Model/Node.v"]
-THEOREMS = ["C20_one_message", "C20_http_aligned", "C20_http_length", "C20_http_released", "C20_example"]
+MODEL_FILES = ["Model/Base.v", "Model/Parse.v", "Model/Node.v", "Model/Net.v"]
+THEOREMS = ["C20_one_message", "C20_http_aligned", "C20_http_length", "C20_http_released", "C20_example", "C20_ws_frame_seq", "C20_ws_frame_single", "C20_ws_frame_cmds", "C20_ws_frame_five_commands", "C20_utf8_valid_app_inv"]
 STRENGTH = {t: "proof-unbounded" for t in THEOREMS}
 RULE = ("HTTP bodies of 1-6 commands drawn from {auth ok/bad, use-db ok/bad, get, get-safe, set, set-safe ok/stale, remove, "
         "increment ok/non-numeric, keys, create-db allowed/refused, commands refused for missing database / missing permission / "
         "secure key}, with and without trailing ';' and blank statements, run through the real process_commands; the expected "
         "entries come from sending the same commands one at a time over an ordinary session on a twin database; exhaustive for "
         "bodies of 1-2 commands (3 in the thorough tier), seeded random up to 6; distinct = distinct canonical trace; non-trivial = "
-        "a refused command is followed by a served one")
-ASSUMPTIONS = ["the HTTP worker's body handling is driven through process_commands (hook verif_process_commands) with body.split(';') "
-               "as in start_http_client; sockets and tiny_http are not exercised",
-               "WebSocket frames are not covered by this check"]
+        "a refused command is followed by a served one; transport family t*: bodies of 1-6 commands through the real HTTP listener and "
+        "as one WebSocket frame, compared entry by entry with the commands sent one frame at a time")
+ASSUMPTIONS = ["node-driver families drive the HTTP worker's body handling through process_commands (hook verif_process_commands) with "
+               "body.split(';') as in start_http_client; the transport family t* posts the body to the real HTTP listener and sends the "
+               "same commands as one frame to the real WebSocket listener"]
 TRUSTED = []
 
 CMDS = ["auth nun pwd", "auth nun bad", "use-db @DB tok", "use-db @DB bad", "use-db @DB bob pw", "get a", "get zz", "get-safe a", "set a 7", "set b x y",
@@ -53,6 +55,72 @@ def mk(cmds, rng, extra=None, decorate=True):
     return ops
 
 
+def driver_of(case):
+    return "net" if case[0].startswith("t") else "node"
+
+
+def net_setup():
+    ops = [["tconn"], ["wconn"], C(0, "auth nun pwd"), C(0, "create-db d0 t0"), C(0, "create-db dH tok"), C(0, "create-db dT tok"), C(0, "create-db dW tok")]
+    for db in ("dH", "dT", "dW"):
+        ops += [C(0, "use-db %s tok" % db), C(0, "set a 1"), C(0, "set a 2"), C(0, "set n 5"), C(0, "set s x y"), C(0, "create-user bob pw"), C(0, "set-permissions bob r a|i n")]
+    ops += [C(0, "use-db d0 t0")]
+    return ops
+
+
+def net_mk(cmds, rng):
+    """the body through the real HTTP listener (database dH), the same commands as one WebSocket frame (dW, session 2)
+    and one at a time over a WebSocket session (dT, session 1)"""
+    ops = net_setup()
+    sub = lambda c, db, new: c.replace("@DB", db).replace("@NEW", new)
+    ops.append(["http", hexs(body_of([sub(c, "dH", "newH") for c in cmds], rng, True))])
+    ops.append(["wconn"])
+    ops.append(C(2, ";".join(sub(c, "dW", "newW") for c in cmds)))
+    for c in cmds:
+        ops.append(C(1, sub(c, "dT", "newT")))
+    ops += [["disc", "1"], ["disc", "2"]]
+    return ops
+
+
+def net_oracle(case, io, mo):
+    obs = split_obs(io)
+    fails = netfam.transport_failures(case, obs)
+    ns = len(net_setup())
+    if len(obs) < len(case[2]):
+        return fails + [("driver-died", "step %d" % len(obs))]
+    cmds = [line_of(o) for o in case[2][ns + 3:] if o[0] == "cmd"]
+    singles = obs[ns + 3: ns + 3 + len(cmds)]
+    # HTTP
+    reply = obs[ns][0]
+    body = bytes.fromhex(case[2][ns][1][1:]).decode()
+    if not reply.startswith("Http 200 "):
+        fails.append(("malformed", reply))
+    elif not any(c.startswith("watch") for c in cmds):
+        got = unesc(reply[9:]) if reply != "Http 200 {}" else ""
+        expect = []
+        for o in singles:
+            if o[0].startswith("Error "):
+                e = unesc(o[0][6:])
+            else:
+                ib = netfam.items_of(o[1], 1)[:-1]
+                e = ib[0] if ib else "empty"
+            expect.append(e.replace("dT", "dH").replace("newT", "newH"))
+        if got != ";".join(expect):
+            fails.append(("http-misaligned", "body %r answered %r; the same commands sent one at a time answer %r" % (body, got, ";".join(expect))))
+    # one WebSocket frame: the same answers, in the same order, as the commands sent one at a time
+    got = netfam.items_of(obs[ns + 2][1], 2)
+    want = []
+    for o in singles:
+        want += [x.replace("dT", "dW").replace("newT", "newW") for x in netfam.items_of(o[1], 1)]
+    if got != want:
+        fails.append(("ws-misaligned", "frame %r answered %r; the same commands sent one at a time answer %r" % (line_of(case[2][ns + 2]), got, want)))
+    # released when the request ends / when the connections end
+    for name in ("dH", "dT", "dW"):
+        sec = db_section(obs[-1][3], name)
+        if sec and (int(sec.group(3)) != 0 or any(w.split(":")[1] != "" for w in sec.group(5).split(",") if ":" in w)):
+            fails.append(("connection-leak", "%s counter is %s, watchers %s after every session ended" % (name, sec.group(3), sec.group(5))))
+    return fails
+
+
 def gen_cases(tier, seed):
     rng = random.Random(seed)
     cases, dist = [], {"exhaustive": 0, "random": 0, "len_hist": {}}
@@ -70,10 +138,19 @@ def gen_cases(tier, seed):
         dist["len_hist"][L] = dist["len_hist"].get(L, 0) + 1
         cases.append(("r%d" % i, ["P"], mk(seq, rng)))
     dist["random"] = n
+    nt = {"quick": 300, "thorough": 5000, "search": 200}[tier]
+    for i in range(nt):
+        seq = [rng.choice(CMDS) for _ in range(rng.randint(1, 6))]
+        if rng.random() < 0.15:
+            seq.insert(rng.randint(0, len(seq)), "watch a")
+        cases.append(("t%d" % i, ["P"], net_mk(seq, rng)))
+    dist["transport"] = nt
     return cases, dist
 
 
 def oracle(case, io, mo):
+    if case[0].startswith("t"):
+        return net_oracle(case, io, mo)
     fails = []
     obs = split_obs(io)
     ns = len(setup_ops())
@@ -125,7 +202,7 @@ def oracle(case, io, mo):
 
 def nontrivial(case, io):
     obs = split_obs(io)
-    ns = len(setup_ops())
+    ns = len(net_setup()) + 2 if case[0].startswith("t") else len(setup_ops())
     rs = [o[0] for o in obs[ns + 1:]]
     for a, b in zip(rs, rs[1:]):
         if a.startswith("Error") and not b.startswith("Error") and b != "Left":
